@@ -49,6 +49,35 @@ def gcd_pair(rng, tier):
         return (a, a - rng.choice([1, 2, 1 << 64, 1 << 70]) if a > (1 << 80) else a + 1)
     return (big(rng, tier), big(rng, tier))
 
+def long_gcd_pairs(rng, tier):
+    """Lehmer's double-word guess (`MIN_DWORD_GUESS_LEN` = 300 words) and `highest_(d)word_normalized`: operand
+    lengths around the threshold, length gap 0..4 words (each arm of the alignment `match`), the larger
+    operand's top word with 0 / 1 / many leading zero bits, as g*u, g*v with a small known g and as random pairs."""
+    las = [299, 300, 301, 320] if tier == "quick" else [298, 299, 300, 301, 302, 320, 400]
+    cnt = 60 if tier == "quick" else 1200
+    for _ in range(cnt):
+        la = rng.choice(las)
+        gap = rng.choice([0, 1, 1, 2, 2, 2, 3, 4])
+        lb = la - gap
+        lz = rng.choice([0, 1, 1, 2, 7, 31, 32, 62, 63])
+        g = rng.choice([1, 2, 3, 6, 1 << 64, (1 << 64) + 1, (1 << 130) - 1, rng.getrandbits(rng.choice([8, 64, 200])) | 1])
+        gb = g.bit_length()
+        abits = la * 64 - lz
+        u = rng.getrandbits(abits - gb) | (1 << (abits - gb - 1))
+        a = g * u
+        # adjust so that a has exactly `abits` or abits+-1 bits (top-word leading zeros as chosen, roughly)
+        bbits = lb * 64 - rng.choice([0, 1, 5, 33, 63])
+        v = rng.getrandbits(max(2, bbits - gb)) | (1 << max(1, bbits - gb - 1))
+        b = g * v
+        r = rng.random()
+        if r < 0.15:
+            b = a - rng.choice([1, 1 << 64, 1 << 128, (1 << 64 * (la - 2))])      # equal top words: the guess fails
+        elif r < 0.25:
+            b = (a >> (64 * gap)) + rng.choice([0, 1, -1])                        # same leading digits, shifted by whole words
+        if b <= 0:
+            b = v
+        yield (a, b)
+
 def radicand(rng, tier, n):
     """perfect powers and perfect powers +-1, 0, 1, every normalisation shift of sqrt_rem_large"""
     c = rng.random()
@@ -160,6 +189,28 @@ def nostd_cases(inner):
         out.append(Case("ns", [ans, op] + [str(a) for a in args]))
     return out
 
+def float_patterns(rng, tier):
+    """f32/f64 bit patterns: specials, subnormals, every exponent x a few mantissas (quick: sampled exponents),
+    mantissas next to powers of two, random"""
+    q = tier == "quick"
+    out = [("f32", b) for b in [0, 0x80000000, 0x7f800000, 0xff800000, 1, 2, 3, 0x7fffff, 0x800000, 0x800001,
+                                0x3f800000, 0x3f800001, 0x3f7fffff, 0x7f7fffff, 0x40490fdb]]
+    out += [("f64", b) for b in [0, 1 << 63, 0x7ff0000000000000, 0xfff0000000000000, 1, 2, 3, 0xfffffffffffff,
+                                 0x10000000000000, 0x3ff0000000000000, 0x3ff0000000000001, 0x3fefffffffffffff,
+                                 0x7fefffffffffffff, 0x400921fb54442d18]]
+    exps32 = range(0, 255) if not q else rng.sample(range(0, 255), 40)
+    for e in exps32:
+        for m in [0, 1, 0x400000, 0x7fffff, rng.getrandbits(23)]:
+            out.append(("f32", (rng.getrandbits(1) << 31) | (e << 23) | m))
+    exps64 = (list(range(0, 2047, 3)) if not q else rng.sample(range(0, 2047), 40))
+    for e in exps64:
+        for m in [0, 1, 1 << 51, (1 << 52) - 1, rng.getrandbits(52), (rng.getrandbits(16) | 0x8000) << 36]:
+            out.append(("f64", (rng.getrandbits(1) << 63) | (e << 52) | m))
+    for _ in range(100 if q else 4000):
+        out.append(("f32", rng.getrandbits(31) % 0x7f800000 | (rng.getrandbits(1) << 31)))
+        out.append(("f64", rng.getrandbits(63) % 0x7ff0000000000000 | (rng.getrandbits(1) << 63)))
+    return out
+
 def nontrivial(c):
     import re
     return any(len(a.lstrip('-')) > 32 for a in c.args if re.fullmatch(r"-?[0-9a-f]+", a)) or c.op.startswith("p.")
@@ -175,6 +226,14 @@ def generate(rng, tier):
             a, b = b, a
         kind = rng.choice(["u", "u", "i", "ui", "iu"])
         op = rng.choice(["gcd", "gcdext", "gcdext"])
+        sa = signed(rng, a) if kind in ("i", "iu") else a
+        sb = signed(rng, b) if kind in ("i", "ui") else b
+        yield Case("%s.%s" % (kind, op), [hx(sa), hx(sb)])
+    for a, b in long_gcd_pairs(rng, tier):
+        if rng.random() < 0.5:
+            a, b = b, a
+        kind = rng.choice(["u", "u", "i", "ui", "iu"])
+        op = rng.choice(["gcd", "gcdext"])
         sa = signed(rng, a) if kind in ("i", "iu") else a
         sb = signed(rng, b) if kind in ("i", "ui") else b
         yield Case("%s.%s" % (kind, op), [hx(sa), hx(sb)])
@@ -262,6 +321,9 @@ def generate(rng, tier):
         else:
             ty = rng.choice(["u8", "u16", "u32", "u64", "u128"])
             yield Case("p.log2b", [ty, hx(prim_val(rng, int(ty[1:])))])
+    # ---- primitive floats by bit pattern (std build; NaN is rejected by an assertion and not generated)
+    for ty, bits in float_patterns(rng, tier):
+        yield Case("p.flog2b", [ty, "%x" % bits])
     # ---- primitives of dashu_base
     for i in range(300 if q else 6000):
         ty = rng.choice(["u8", "u16", "u32", "u64", "u64", "u128", "u128"])
@@ -315,6 +377,8 @@ def generate(rng, tier):
         inner.append(("p.log2b", [ty, hx(v)]))
     for i in range(60 if q else 1500):
         inner.append(("u.log2b", [hx(big(rng, tier))]))
+    for ty, bits in float_patterns(rng, tier):
+        inner.append(("p.flog2b", [ty, "%x" % bits]))
     for c in nostd_cases(inner):
         yield c
     if not q:
@@ -339,7 +403,8 @@ FRONTIER = ["gcd::gcd_in_place / gcd_ext_in_place (Lehmer loop over multi-word o
             "f32 arithmetic of the estimators (x/256, + shift, next_up/next_down, *(1 +- 2^-22)): executed bit-exactly, not the subject of a theorem"]
 RULE = ("gcd pairs from {0/0, one zero, equal, common factor x cofactor size classes, one divides the other with any length gap, first "
         "quotient > 2^63, Fibonacci pairs (all quotients 1) up to 19300 bits, powers of two / long zero tails, near-equal top words, random "
-        "0..320 words} x {UBig, IBig, mixed} x {gcd, gcd_ext}; radicands {0,1,perfect powers, perfect powers +-1, every (word count, "
+        "0..320 words; around Lehmer's double-word-guess threshold: 298..302/320/400 words x length gap 0..4 words x 0/1/many leading zero "
+        "bits of the top word, as g*u, g*v with known g, near-equal and word-shifted pairs} x {UBig, IBig, mixed} x {gcd, gcd_ext}; radicands {0,1,perfect powers, perfect powers +-1, every (word count, "
         "leading-zero count) class of sqrt_rem_large incl. shift = 64 and > 64} x n in {0..10, 16, 63..65, 127..129, 1000, bit length +-1}; "
         "ilog over bases {2, 2^k, 10, word, dword, multi-word} x {0, 1, base^e, base^e +-1, random}; remove with known multiplicity; "
         "log2_bounds of UBig/IBig/FBig<2>/DBig/RBig/Relaxed/u8..u128 incl. values next to 1 and exact powers of two; primitives: "
